@@ -311,6 +311,11 @@ def py_kwargs(al, layer, size_hint, variant, stubrec, winreg):
             kw[name] = v
         elif name in ("wnd", "ola_wnd"):
             call = (lambda kind: (lambda sz: wnd_list(kind, sz)))(v)
+            if variant % 6 == 4:
+                # a window function that keeps its results (functools.lru_cache style) and hands out the SAME list
+                # object every time: nobody may change a window it was given
+                # (one table for the analysis and the synthesis window: the same kind and size is the same object)
+                call = (lambda kind: (lambda sz: winreg.setdefault(("memo", kind, sz), wnd_list(kind, sz))))(v)
             if v == "none":
                 kw[name] = None
             elif variant % 3 == 1 or size_hint is None:
